@@ -16,7 +16,7 @@ import (
 	"pgregory.net/rapid"
 )
 
-func TestMain(m *testing.M) { pbt.Main(m) }
+func TestMain(m *testing.M)   { pbt.Main(m) }
 func TestReplay(t *testing.T) { pbt.Replay(t) }
 func TestCorpus(t *testing.T) { pbt.Corpus(t) }
 
